@@ -5,10 +5,12 @@
 (* (gateway.go handle*Protocol, process.go Process, common.go forward)           *)
 EXTENDS Integers, Sequences, FiniteSets, TLC
 
-CONSTANTS Transport     \* "ws" | "legacy"
+CONSTANTS Transport,    \* "ws" | "legacy"
+          LockedSteps   \* release steps that take the client-writer lock ({} in the design; non-empty only for the necessity self-test)
 
 Conns == IF Transport = "ws" THEN {"ws"} ELSE {"in", "out"}
 Causes == {<<k, "-">> : k \in {"close-channel", "protocol-error", "unframeable"}} \cup {<<"fin", c>> : c \in Conns} \cup {<<"rst", c>> : c \in Conns}
+          \cup {<<"shut", IF Transport = "ws" THEN "ws" ELSE "in">>}   \* half close of the connection the client writes on
 NoCause == <<"none", "-">>
 
 VARIABLES stage,    \* how far the exchange got: "accepted" | "channel" (a host connection exists)
@@ -17,33 +19,47 @@ VARIABLES stage,    \* how far the exchange got: "accepted" | "channel" (a host 
           loop,     \* "running" | "exited"
           relay,    \* "none" | "running" | "exited"
           registered, gauge,
-          cause     \* "none" or the way the client side ended
-vars == <<stage, conn, host, loop, relay, registered, gauge, cause>>
+          cause,    \* "none" or the way the client side ended
+          writer    \* "free" | "blocked": the relay sits inside Tunnel.Write, holding the writer lock, because the client
+                    \* does not read (its socket buffers are full); only the end of that client connection frees it
+vars == <<stage, conn, host, loop, relay, registered, gauge, cause, writer>>
+\* the connection the gateway writes to the client on
+WConn == IF Transport = "ws" THEN "ws" ELSE "out"
+\* a release step that needs the writer lock cannot be taken while the relay is blocked inside it
+LockFree(step) == step \in LockedSteps => writer = "free"
 
 Init == /\ stage \in {"accepted", "channel"}
         /\ conn = [c \in Conns |-> "open"]
         /\ host = (IF stage = "channel" THEN "open" ELSE "none")
         /\ loop = "running" /\ relay = (IF stage = "channel" THEN "running" ELSE "none")
         /\ registered = TRUE /\ gauge = 1 /\ cause = NoCause
+        /\ writer \in (IF stage = "channel" THEN {"free", "blocked"} ELSE {"free"})
 
 \* the client side ends in one of the ways the property lists
 End(c) == /\ cause = NoCause /\ cause' = c
-          /\ conn' = IF c[2] = "-" THEN conn ELSE [conn EXCEPT ![c[2]] = "closed-by-client"]
+          /\ conn' = IF c[2] = "-" \/ c[1] = "shut" THEN conn ELSE [conn EXCEPT ![c[2]] = "closed-by-client"]
+          \* a client that closes or resets the connection the relay writes to makes the blocked write fail
+          /\ writer' = IF c[2] = WConn /\ c[1] # "shut" THEN "free" ELSE writer
           /\ UNCHANGED <<stage, host, loop, relay, registered, gauge>>
 \* the packet loop notices (a read fails, a packet is refused, a write to a dead connection fails) and returns
-LoopReturns == /\ loop = "running" /\ cause # NoCause
+LoopReturns == /\ loop = "running" /\ cause # NoCause /\ LockFree("LoopReturns")
                /\ loop' = "exited"
-               /\ UNCHANGED <<stage, conn, host, relay, registered, gauge, cause>>
+               /\ UNCHANGED <<stage, conn, host, relay, registered, gauge, cause, writer>>
 \* everything the handler owns is released when the loop has returned
-CloseHost == /\ loop = "exited" /\ host = "open" /\ host' = "closed"
-             /\ UNCHANGED <<stage, conn, loop, relay, registered, gauge, cause>>
-CloseConn(c) == /\ loop = "exited" /\ conn[c] # "closed" /\ conn' = [conn EXCEPT ![c] = "closed"]
+CloseHost == /\ loop = "exited" /\ host = "open" /\ LockFree("CloseHost") /\ host' = "closed"
+             /\ UNCHANGED <<stage, conn, loop, relay, registered, gauge, cause, writer>>
+\* the websocket handler closes its connection only after it has unregistered (defer order); closing the connection
+\* the relay writes to makes a blocked write fail
+CloseConn(c) == /\ loop = "exited" /\ conn[c] # "closed" /\ LockFree("CloseConn")
+                /\ (Transport = "ws" => ~registered)
+                /\ conn' = [conn EXCEPT ![c] = "closed"]
+                /\ writer' = IF c = WConn THEN "free" ELSE writer
                 /\ UNCHANGED <<stage, host, loop, relay, registered, gauge, cause>>
-Unregister == /\ loop = "exited" /\ registered /\ registered' = FALSE /\ gauge' = gauge - 1
-              /\ UNCHANGED <<stage, conn, host, loop, relay, cause>>
+Unregister == /\ loop = "exited" /\ registered /\ LockFree("Unregister") /\ registered' = FALSE /\ gauge' = gauge - 1
+              /\ UNCHANGED <<stage, conn, host, loop, relay, cause, writer>>
 \* the relay goroutine ends when its read from the host fails
-RelayReturns == /\ relay = "running" /\ host = "closed" /\ relay' = "exited"
-                /\ UNCHANGED <<stage, conn, host, loop, registered, gauge, cause>>
+RelayReturns == /\ relay = "running" /\ host = "closed" /\ writer = "free" /\ relay' = "exited"
+                /\ UNCHANGED <<stage, conn, host, loop, registered, gauge, cause, writer>>
 Next == (\E c \in Causes : End(c)) \/ LoopReturns \/ CloseHost \/ (\E c \in Conns : CloseConn(c)) \/ Unregister \/ RelayReturns
 Fair == WF_vars(LoopReturns) /\ WF_vars(CloseHost) /\ (\A c \in Conns : WF_vars(CloseConn(c))) /\ WF_vars(Unregister) /\ WF_vars(RelayReturns)
 Spec == Init /\ [][Next]_vars /\ Fair
